@@ -42,6 +42,18 @@ def compose(target, flavour, sources, filt=None):
     print(target, len(runs), 'runs')
 src_props = [c for c in claimed if c not in ('C02', 'C03', 'C05', 'C13', 'C15')]
 compose('C02', 'san', src_props)
+# C06's iterator wrappers check every dereference / step against the range the iterator belongs to (a read outside a
+# caller-supplied range that leaves the result correct is a C02 matter): those checks work without a sanitizer, and
+# C06 lists only one part per source in the san flavour - so C02 also runs C06's nochk runs (seed c02_equal_4iter_...)
+def add_runs(target, runs_extra):
+    p = load(target)
+    seen = {key(r) for r in p['runs']}
+    for r in runs_extra:
+        if key(r) not in seen:
+            p['runs'].append(r); seen.add(key(r))
+    json.dump(p, open('%s/props/%s.json' % (V, target), 'w'), indent=1)
+    print(target, len(p['runs']), 'runs (with extras)')
+add_runs('C02', [dict(r) for r in load('C06')['runs'] if r['flavour'] == 'nochk' and r['src'] != 'harness/c06_depth.cpp'])
 def tracked(r):
     t = TRACKED.get(r['src'])
     if t is None: return False
